@@ -87,13 +87,16 @@ func RoundtripSweep(run *ev.Run, backend string, vals []interface{}) {
 		run.Violation(kind+"|"+backend+"|"+typePath(it.want["f"]), fmt.Sprintf("[%s] %s: %s", backend, it.desc, msg), map[string]interface{}{"engine": "roundtrip", "backend": backend, "document": m.ToJSON(it.want), "finding": msg})
 	}
 	// insert in batches
-	for i := 0; i < len(items); i += 60 {
-		j := i + 60
+	for i := 0; i < len(items); i += 30 {
+		j := i + 30
 		if j > len(items) {
 			j = len(items)
 		}
 		docs := []*document.Document{}
 		for _, it := range items[i:j] {
+			// an object with two fields beside the value under test: a later bulk Update through the path "o.w" must
+			// change that one field and keep its sibling
+			it.want["o"] = map[string]interface{}{"keep": m.Clone(it.want["f"]), "w": int64(0)}
 			docs = append(docs, drv.Doc(it.want))
 		}
 		if err := in.DB.Insert("a", docs...); err != nil {
@@ -150,15 +153,16 @@ func RoundtripSweep(run *ev.Run, backend string, vals []interface{}) {
 			viol("replace", *it, fmt.Sprintf("ReplaceById failed: %v", err))
 		}
 	}
-	for lo := 0; lo < len(items); lo += 100 { // in chunks: the small badger memtable used by the harness limits transaction size
-		c := m.And(m.Leaf("gte", "mark", int64(lo)), m.Leaf("lt", "mark", int64(lo+100)))
-		if err := in.DB.Update(drv.Query(&m.Q{Coll: "a", Crit: c}), map[string]interface{}{"upd": "u"}); err != nil {
+	for lo := 0; lo < len(items); lo += 30 { // in chunks: the small badger memtable used by the harness limits transaction size
+		c := m.And(m.Leaf("gte", "mark", int64(lo)), m.Leaf("lt", "mark", int64(lo+30)))
+		if err := in.DB.Update(drv.Query(&m.Q{Coll: "a", Crit: c}), map[string]interface{}{"upd": "u", "o.w": int64(5)}); err != nil {
 			run.Violation("update-error|"+backend, fmt.Sprintf("Update of a chunk of documents failed: %v", err), nil)
 			return
 		}
 	}
 	for i := range items {
 		items[i].want["upd"] = "u"
+		items[i].want["o"].(map[string]interface{})["w"] = int64(5)
 	}
 	check("after replace+update")
 	// rewrites that change only the Go type of a number or only the zone of a time (values that compare equal under
